@@ -135,9 +135,14 @@ func decodeContent(ser []byte) (*wire.Biscuit, []m.PBlock, error) {
 }
 
 func checkC07(c C07Case, rec *obs.Recorder) *obs.Violation {
-	tok, _, pub, err := c.Spec.build()
+	tok, stages, pub, err := c.Spec.build()
 	if err != nil {
 		return obs.Violf("cannot build %s: %v", m.Token{Blocks: c.Spec.Blocks}.Text(), err)
+	}
+	// forks are part of "all build / append / seal / serialize sequences": two tokens appended
+	// to one stage must each carry their own block and leave every other token's bytes alone
+	if msg := forkAndRecheck(stages, pub, c.Spec.RngKey+9, c.Spec.Blocks[len(c.Spec.Blocks)-1], c.GatePos); msg != "" {
+		return obs.ViolK("fork", "token %s: %s", m.Token{Blocks: c.Spec.Blocks}.Text(), msg)
 	}
 	ser, err := tok.Serialize()
 	if err != nil {
